@@ -10,6 +10,7 @@ use std::sync::atomic::{AtomicUsize, Ordering};
 pub mod c01;
 pub mod c02;
 pub mod c03;
+pub mod c13;
 pub mod c16;
 pub mod ctxgen;
 pub mod hirsample;
@@ -152,6 +153,7 @@ fn main() {
                 "c02" => c02::replay(body),
                 "c03" => c03::replay(body),
                 "c16" => c16::replay(body),
+                "c13" => c13::replay(body),
                 p => {
                     eprintln!("no replay for {}", p);
                     std::process::exit(2)
@@ -199,6 +201,7 @@ fn main() {
                 "c02" => c02::run(&ctx),
                 "c03" => c03::run(&ctx),
                 "c16" => c16::run(&ctx),
+                "c13" => c13::run(&ctx),
                 _ => usage(),
             };
             let mut j = rep.to_json();
